@@ -588,7 +588,7 @@ func c12Zoo(c *run.C) {
 		ifaceTypes = []reflect.Type{reflect.TypeOf(map[string]interface{}{}), reflect.TypeOf(zoo.InlineInner{}), reflect.TypeOf(zoo.InlineOuter{}), reflect.TypeOf(&zoo.InlineInner{}), reflect.TypeOf(zoo.Plain{}), reflect.TypeOf(map[string]int{})}
 	}
 	vg := &gen.ValueGen{R: r, O: gen.GoValueOpts{BadUTF8: true, IfaceTypes: ifaceTypes, Exemplars: zoo.Exemplars,
-		IfaceTypesFor: map[reflect.Type][]reflect.Type{reflect.TypeOf((*zoo.Folderer)(nil)).Elem(): zoo.FoldererValues}}}
+		IfaceTypesFor: zoo.IfaceValues}}
 	v := vg.Value(t, 0)
 	if (t == reflect.TypeOf(zoo.InlineOuter{}) || t == reflect.TypeOf(zoo.InlineInner{})) && holdsNilPtrInIface(v, 0) {
 		c.Observe("zoo_skipped_inline_iface_with_nil_pointer", 1)
